@@ -15,7 +15,7 @@ from .values import sig
 from .driver import make_exc
 
 ASYNC_FLAVOURS = ("agen", "aclass", "aclass_noclose", "aplain", "agenlike", "aeager", "aeagerstop", "aproxy", "areiter", "alateclose", "agencoro")
-SYNC_FLAVOURS = ("list", "seq", "iter", "tuple", "tuplesub", "reiter", "sgen", "ringlist")
+SYNC_FLAVOURS = ("list", "seq", "iter", "tuple", "tuplesub", "reiter", "sgen", "ringlist", "range")
 SRC_FLAVOURS = ASYNC_FLAVOURS + SYNC_FLAVOURS
 FN_FLAVOURS = ("def", "async", "partial", "obj", "objaw", "falsyobj", "eqobj", "unhashobj", "aeqobj", "gencoro", "classaw", "defcoro", "eagercoro")
 
@@ -188,6 +188,15 @@ class ListSource(SourceBase):
     @property
     def obj(self):
         return self._obj
+
+
+class RangeSource(ListSource):
+    """a real ``range`` of as many numbers as the case has items for this source (it knows its length, is immutable and
+    re-iterable: everything a short-cut could wish for - and still just an iterable)"""
+
+    def __init__(self, ctx, name, items, spec=None):
+        super().__init__(ctx, name, list(range(len(items))), spec)
+        self._obj = range(len(items))
 
 
 class MyTuple(tuple):
@@ -574,6 +583,7 @@ _SRC_CLASSES = {
     "list": ListSource,
     "tuple": TupleSource,
     "ringlist": RingListSource,
+    "range": RangeSource,
     "tuplesub": TupleSubSource,
     "seq": SeqSource,
     "sgen": SyncGenSource,
@@ -587,7 +597,7 @@ def make_source(ctx, name, items, spec, side):
     if side == "s":
         if (spec or {}).get("fl") == "list" and (spec or {}).get("mutable"):
             return ListSource(ctx, name, items, spec)  # the consumer mutates this very list while iterating
-        if (spec or {}).get("fl") in ("tuple", "tuplesub", "ringlist") and not (spec or {}).get("fault"):
+        if (spec or {}).get("fl") in ("tuple", "tuplesub", "ringlist", "range") and not (spec or {}).get("fault"):
             # what the stdlib does with a tuple (subclass) argument depends on its type
             return _SRC_CLASSES[spec["fl"]](ctx, name, items, spec)
         if (spec or {}).get("fl") in ("areiter", "reiter"):
